@@ -1,12 +1,44 @@
 """C01 collision protection: theorems in props/C01.v; exhaustive adoption table through the real
-PhaseReconciler.ReconcilePhase + random multi-object phases with third-party interference."""
+PhaseReconciler.ReconcilePhase + random multi-object phases with third-party interference; plus handovers from
+delegated previous revisions through the real ObjectSet / ObjectSetPhase controllers (permitted adoption carried out)."""
+import json
 import phasecheck as pc
+import vlib, dlglib as dl, C15 as dlg
+
+HANDOVER_ID = ("C01 permitted adoption from a declared previous revision with delegated phases is not carried out "
+               "(handover differs from the same handover with in-process phases)")
+
+
+def handovers(seed, tier):
+    """Handovers whose previous revisions delegated phases: two revisions (both directions), three revisions with a
+    revision without remote phases listed first, and previous revisions whose phase objects were re-created."""
+    r = vlib.rng(seed, "C01h")
+    scs = []
+    for m in ([True], [True, False], [False, True]):
+        scs.append(dl.scenario_handover(r, m, None, nph=len(m), policy="rr"))
+        scs.append(dl.scenario_handover3(r, mask_mid=m, policy="rr"))
+        scs.append(dl.scenario_recreated(r, mask_old=m, policy="rr"))
+    for i in range(4 if tier == "quick" else 80):
+        scs.append(dl.scenario_handover3(r, strategy="annot" if i % 4 == 3 else "native"))
+        scs.append(dl.scenario_recreated(r, mask_old=[True] + [r.random() < 0.5 for _ in range(r.choice([0, 1]))]))
+    return scs
 
 
 def check(run, tier, seed, replay=None):
-    scs = pc.table(tier) + pc.random_phases(seed, 300 if tier == "quick" else 6000) + pc.random_teardowns(seed, 100 if tier == "quick" else 1500)
-    pc.phase_check(run, "C01", tier, seed, replay, scs, "C01Corr.judge",
+    rsc = json.load(open(replay))["replay"]["scenario"] if replay else None
+    dlg_replay = rsc is not None and "stages" in rsc
+    scs = [] if dlg_replay else pc.table(tier) + pc.random_phases(seed, 300 if tier == "quick" else 6000) + pc.random_teardowns(seed, 100 if tier == "quick" else 1500)
+    pc.phase_check(run, "C01", tier, seed, None if dlg_replay else replay, scs, "C01Corr.judge",
                    lambda sc, obs: "C01 write or ownership change without permitted adoption, or adoption/refusal not carried out",
                    "exhaustive abstract adoption table (strategy x already-controller x revision relation x collisionProtection x "
-                   "controller state x force x pko-label x cache visibility) through the real ReconcilePhase, plus seeded random "
-                   "multi-object phases and teardowns with a third-party op between read and write", faults=True)
+                   "controller state x force x pko-label x cache visibility x order of the previous-revision list) through the real "
+                   "ReconcilePhase, plus seeded random multi-object phases and teardowns with a third-party op between read and write "
+                   "and one or two previous revisions (with / without remote phases, garbage collected); plus handovers from delegated "
+                   "previous revisions (two and three revisions, re-created phase objects) through the real controllers, compared "
+                   "with the same handover with in-process phases", faults=True)
+    if replay and not dlg_replay:
+        return
+    hs = [rsc] if dlg_replay else handovers(seed, tier)
+    n, passes, _, _ = dlg.delegation_stage(run, "C01", hs, id_mon=HANDOVER_ID, id_twin=HANDOVER_ID, id_own=HANDOVER_ID)
+    run.cov["evaluations"] += n
+    run.cov["controller_passes"] = passes
